@@ -1,6 +1,6 @@
 """C06 - curves evaluate to their documented function, always within 0..255"""
 import vlib
-from props import recfam
+from props import recfam, sysfam
 
 INV = ['C06_Linear', 'C06_Steps', 'C06_LinearAnyFloat', 'C06_StepsAnyFloat', 'C06_Graph', 'C06_Pid', 'C06_PidRange']
 
@@ -13,8 +13,11 @@ def check(run):
                        'curves', timeout=3000)
     run.sample_from(traces[0], 1)
     run.validate('Rec_Curves', recfam.rec_cfg('Rec_Curves', INV), traces, 'rec', parallel=8, timeout=3000)
+    # the same definition on the composed data path (System.tla): what a control cycle of a fan evaluates is the
+    # documented function of the sensor state of that moment, compositionally, for objects built by the start-up code
+    _, cycles = sysfam.traces(run, ['C06_SystemEval'], [])
     import json
-    evals = 0
+    evals = cycles
     kinds = {}
     for t in traces:
         with open(t) as f:
@@ -35,7 +38,9 @@ def check(run):
                       'linear min/max and step curves swept over grids with +-3 m-degree around every threshold, non-integer and extreme '
                       'sensor values (1e300, MaxFloat64, -0.0), random curve graphs (six function types, 1..8 members, depth <= 4) with '
                       'every curve checked compositionally against its members\' observed values, PID curves on an exact rational grid under '
-                      'the fake clock and with arbitrary finite gains (range only); non-trivial = single curve evaluations checked',
+                      'the fake clock and with arbitrary finite gains (range only); plus control cycles of the composed pipeline (System.tla, objects '
+                      'built by the start-up code, polls and cycles interleaved) with every curve the fan uses checked against its definition on '
+                      'the sensor averages of that moment; non-trivial = single curve evaluations checked',
                       dict(evaluations=evals, distinct_nontrivial=evals, records=n, record_kinds=kinds),
                       ['float envelopes: {e, e-1} at exact multiples for truncations, both neighbours within 2^-12 of a rounding tie (float32)',
                        'PID exactness: gains p/100, i/1000, d/1000, integer set point, measurements in tenths of a degree, 1 s ticks'])
